@@ -111,6 +111,33 @@ func (d *Driver) Ask(line string) string {
 	}
 }
 
+// AskWithin is Ask with a caller-chosen timeout, for ops that make the model sweep a whole range
+// (the 30 s of Ask are too tight for those on a loaded machine).
+func (d *Driver) AskWithin(line string, timeout time.Duration) string {
+	d.Log = append(d.Log, line)
+	if _, err := fmt.Fprintln(d.in, line); err != nil {
+		panic(fmt.Sprintf("driver %s: write: %v", d.name, err))
+	}
+	type res struct {
+		s   string
+		err error
+	}
+	ch := make(chan res, 1)
+	go func() {
+		s, err := d.rd.ReadString('\n')
+		ch <- res{s, err}
+	}()
+	select {
+	case r := <-ch:
+		if r.err != nil {
+			panic(fmt.Sprintf("driver %s: read after %q: %v", d.name, line, r.err))
+		}
+		return strings.TrimSpace(r.s)
+	case <-time.After(timeout):
+		panic(fmt.Sprintf("driver %s: no answer to %q within %v", d.name, line, timeout))
+	}
+}
+
 func (d *Driver) Mark() { d.Log = d.Log[:0] }
 
 func (d *Driver) Close() {
